@@ -11,21 +11,20 @@ ToSet(s) == {s[i] : i \in DOMAIN s}
 Norm(ev) == [ev EXCEPT !.op = [op |-> ev.op.op, x |-> ev.op.x, recv |-> ev.op.recv, own |-> ev.op.own,
                                 oper |-> ev.op.oper, auth |-> ToSet(ev.op.auth), nosub |-> ev.op.nosub]]
 
-Init == l = 1 /\ g = [P |-> 1] /\ dead = FALSE /\ cnt = [m \in Monitors |-> 0]
+Init == l = 1 /\ g = [P |-> 1] /\ dead = {} /\ cnt = [m \in Monitors |-> 0]
 
 Report(ev, m) == PrintT(<<"VIOL", ToJson([run |-> ev.run, i |-> ev.i, line |-> l, mon |-> m,
-                                          prop |-> PropOf(m), key |-> Key(m, g, ev)])>>)
+                                          prop |-> PropOf(m), key |-> Key(m, g, ev), after |-> dead])>>)
 
 Next ==
   /\ l <= Len(Rec)
   /\ l' = l + 1
   /\ LET raw == Rec[l] IN
      IF raw.op.op = "reset"
-     THEN g' = GInit(raw.obs, raw.op.off) /\ dead' = FALSE /\ UNCHANGED cnt
-     ELSE IF dead THEN UNCHANGED <<g, dead, cnt>>
-     ELSE LET ev == Norm(raw)  f == Failing(g, ev) IN
+     THEN g' = GInit(raw.obs, raw.op.off) /\ dead' = {} /\ UNCHANGED cnt
+     ELSE LET ev == Norm(raw)  f == {m \in Failing(g, ev) : PropOf(m) \notin dead} IN
           /\ \A m \in f : Report(ev, m)
-          /\ dead' = (f # {})
+          /\ dead' = dead \cup {PropOf(m) : m \in f}
           /\ g' = GNext(g, ev)
           /\ cnt' = [m \in Monitors |-> cnt[m] + IF Ante(m, g, ev) THEN 1 ELSE 0]
   /\ (l = Len(Rec) => PrintT(<<"DONE", l, ToJson(cnt')>>))
